@@ -80,6 +80,34 @@ def observe (probes : List κ) (d : CIDict κ ν) : Obs κ ν :=
     data := CIDict.asDict d
     cmap := CIDict.caseMap d }
 
+/-! ### the inherited `MutableMapping` mutators, as `collections.abc` defines them through
+`__getitem__` / `__setitem__` / `__delitem__` / `__iter__` -/
+
+/-- `pop(key)`: `value = self[key]` (KeyError ↦ `none`), then `del self[key]` -/
+def popM (d : CIDict κ ν) (k : κ) : Option ν × CIDict κ ν :=
+  match CIDict.getitem lower d k with
+  | some v => (some v, (CIDict.delitem lower d k).getD d)
+  | none => (none, d)
+def popS (m : SMap κ ν) (k : κ) : Option ν × SMap κ ν :=
+  match SMap.lookup lower m k with
+  | some v => (some v, SMap.remove m (lower k))
+  | none => (none, m)
+
+/-- `setdefault(key, default)`: `try: return self[key] except KeyError: self[key] = default; return default` -/
+def setdefaultM (d : CIDict κ ν) (k : κ) (v : ν) : ν × CIDict κ ν :=
+  match CIDict.getitem lower d k with
+  | some x => (x, d)
+  | none => (v, CIDict.setitem lower d k v)
+def setdefaultS (m : SMap κ ν) (k : κ) (v : ν) : ν × SMap κ ν :=
+  match SMap.lookup lower m k with
+  | some x => (x, m)
+  | none => (v, SMap.write lower m k v)
+
+/-- `update(mapping)`: `for key in other: self[key] = other[key]` -/
+def updateM (d : CIDict κ ν) (l : List (κ × ν)) : CIDict κ ν :=
+  l.foldl (fun acc p => CIDict.setitem lower acc p.1 p.2) d
+def updateS (m : SMap κ ν) (l : List (κ × ν)) : SMap κ ν := SMap.writeAll lower m l
+
 /-- `Mapping.items()` as `collections.abc` defines it: `[(k, self[k]) for k in self]` (likewise
     `keys()` is iteration and `values()` the second components) -/
 def mixinItems (d : CIDict κ ν) : List (κ × ν) :=
